@@ -252,11 +252,12 @@ static void va_case(int aset, int kind, int bit) {
     if (kind == 0) rd[bit / 8] ^= (uint8_t)(1u << (bit % 8));
     if (kind == 1) rs[bit / 8] ^= (uint8_t)(1u << (bit % 8));
     if (kind == 2) es[bit / 8] ^= (uint8_t)(1u << (bit % 8));
+    if (kind == 4) { rs[5] ^= 0x01; memcpy(es, own, 6); }      /* the mapper chose OUR address as the frame's Ethernet source: still an observation of another station */
     fb_base(f, own, es, 0, 0x04, rd, rs, 0); memset(W.iface[0].recv, 0, W.iface[0].recv_prev_len); drv_linux_deliver(0, f, 32);
     pev q = ev_query(0, ST_M1, ST_M1, 0x0101); vf_trace_clear(); drv_linux(&q, 0);
     va_cases++;
-    static const char *KN[4] = {"real destination", "real source", "Ethernet source", "nothing (duplicate)"};
-    int want = (kind == 1 || kind == 2) ? 2 : 1;
+    static const char *KN[5] = {"real destination", "real source", "Ethernet source", "nothing (duplicate)", "Ethernet source (= our own address) and real source"};
+    int want = (kind == 1 || kind == 2 || kind == 4) ? 2 : 1;
     const vf_trec *t = tr_send(0);
     if (tr_sends() != 1 || t->len < 34 || tr_bytes(t)[17] != 0x07) { vf_violation("query:not-a-queryresp", "address stage: the Query was not answered with one QueryResp"); memcpy(W.iface[0].mac, keep, 6); return; }
     unsigned cnt = (unsigned)(((tr_bytes(t)[32] << 8) | tr_bytes(t)[33]) & 0x3FFF);
@@ -279,9 +280,9 @@ static void va_root(void) { va_n = 0; memset(&M, 0, sizeof M); }
 static e1_cfg vacfg = { .nev = 1 << 16, .ev_name = va_name, .apply = va_apply, .root_setup = va_root };
 static void run_va(void) {
     static int p[3];
-    for (int aset = 0; aset < 4; aset++) for (int kind = 0; kind < 4; kind++) for (int bit = 0; bit < (kind == 3 ? 1 : 48); bit++) { p[0] = aset; p[1] = kind; p[2] = bit; e1_manual_path(&vacfg, p, 3); va_case(aset, kind, bit); }
+    for (int aset = 0; aset < 4; aset++) for (int kind = 0; kind < 5; kind++) for (int bit = 0; bit < (kind >= 3 ? 1 : 48); bit++) { p[0] = aset; p[1] = kind; p[2] = bit; e1_manual_path(&vacfg, p, 3); va_case(aset, kind, bit); }
     R.evaluations = va_cases * 4; R.transitions = va_cases * 4; R.states = 4; R.exhaustive = 1;
-    vf_sample("address-neighbour stage: 2 own x 2 source addresses x {one bit of real destination / real source / Ethernet source flipped (48 each), exact duplicate}");
+    vf_sample("address-neighbour stage: 2 own x 2 source addresses x {one bit of real destination / real source / Ethernet source flipped (48 each), exact duplicate, Ethernet source = our own address}");
 }
 
 /* ------------------------------------------------------------------ C02 flood-and-drain (mode c02f)
@@ -425,6 +426,7 @@ int main(int argc, char **argv) {
     int pump = !strcmp(A.mode, "c19pump");
     vf_world_init(A.mtu, A.wifi, (uint8_t)A.fill);
     klimit = mode != 19 ? 300 : KMAX - 8;
+    if (mode == 7 && A.b == 2) W.host.fail = 0xFFFFFFFFu;      /* the host's icon / name / hardware-ID getters fail: large-property requests in between must not disturb the observations */
     measure_baseline();
     if (A.a > 0) klimit = (int)A.a;
     e1_cfg cfg = { .nev = E_NEV, .ev_name = ev_name, .apply = apply, .enabled = enabled, .root_setup = root_setup, .model = &M, .model_size = sizeof M,
